@@ -139,6 +139,20 @@ def scan(root=REPO + "/skactiveml"):
                                 forwarded = True
                         if not forwarded:
                             sites.append((3, *where, "self.cluster_algo(**dict) without random_state"))
+                elif isinstance(f_, ast.Name) and mod is not None and not f_.id[:1].isupper() and f_.id not in HELPERS and f_.id != "check_random_state":
+                    # a FUNCTION of scikit-learn / scipy / the package itself that draws random numbers when its random_state is left out
+                    # (sklearn.utils.resample / shuffle, train_test_split, make_* ...)
+                    obj = getattr(mod, f_.id, None)
+                    if inspect.isfunction(obj) and (getattr(obj, "__module__", "") or "").startswith(("sklearn", "scipy")):
+                        try:
+                            params = inspect.signature(obj).parameters
+                        except (TypeError, ValueError):
+                            params = {}
+                        rsp = params.get("random_state")
+                        if rsp is not None and rsp.default is None and "random_state" not in kws and not has_star:
+                            pos = list(params).index("random_state")
+                            if len(node.args) <= pos:
+                                sites.append((3, *where, f"{f_.id}(...) without random_state"))
                 elif isinstance(f_, ast.Name) and mod is not None and f_.id[:1].isupper():
                     obj = getattr(mod, f_.id, None)
                     if inspect.isclass(obj) and obj.__module__.startswith(("sklearn", "skactiveml")):
